@@ -338,7 +338,10 @@ def lonlat(sc):
 def frame_tag(sc):
     """frame name and the attributes that make two frames of one name different."""
     f = sc.frame
-    return f"{f.name}|{getattr(f, 'equinox', None)}|{getattr(f, 'obstime', None)}"
+
+    def jd(t):
+        return None if t is None else round(float(t.jd), 6)
+    return f"{f.name}|{jd(getattr(f, 'equinox', None))}|{jd(getattr(f, 'obstime', None))}"
 
 
 def sky_objs(reg):
@@ -888,10 +891,11 @@ def _north_angle(sc, wcs):
 
 
 def frame_facts(d, fresh, back, wcs, wd, path='root'):
-    """sky -> pixel -> sky compared FRAME-INDEPENDENTLY, per simple component: the largest angular separation (arcsec) between
-    an original position and the returned one (astropy transforms between the frames), and the deviation of the returned
-    angle from `angle + north(original frame) - north(returned frame)` (a sky angle is counted from the local longitude
-    axis of the frame its centre is given in)."""
+    """sky -> pixel -> sky compared FRAME-INDEPENDENTLY, per simple component: the largest distance IN THE IMAGE (pixels)
+    between astropy's image of an original position and of the returned one (both transformed towards the WCS frame, the
+    direction the conversion itself uses: astropy's FK4 transformations are not exact inverses of each other), and the
+    deviation of the returned angle from `angle + north(original frame) - north(returned frame)` (a sky angle is counted
+    from the local longitude axis of the frame its centre is given in)."""
     import astropy.units as u
     if d['kind'] == 'compound':
         return (frame_facts(d['a'], fresh.region1, back.region1, wcs, wd, path + '.a')
@@ -902,7 +906,12 @@ def frame_facts(d, fresh, back, wcs, wd, path='root'):
     pa, pb = sky_objs(fresh), sky_objs(back)
     fact['n'] = [len(pa), len(pb)]
     if len(pa) == len(pb):
-        fact['sep'] = max(float(a.separation(b).to_value(u.arcsec)) for a, b in zip(pa, pb))
+        worst = 0.0
+        for a, b in zip(pa, pb):
+            xa, ya = (float(v) for v in wcs.world_to_pixel(a))
+            xb, yb = (float(v) for v in wcs.world_to_pixel(b))
+            worst = max(worst, math.hypot(xa - xb, ya - yb))
+        fact['sep'] = worst
     if hasattr(fresh, 'angle') and hasattr(back, 'angle'):
         exp = float(fresh.angle.to_value(u.rad)) + _north_angle(fresh.center, wcs) - _north_angle(back.center, wcs)
         dlt = float(back.angle.to_value(u.rad)) - exp
@@ -912,6 +921,9 @@ def frame_facts(d, fresh, back, wcs, wd, path='root'):
 
 def compute(case):
     """-> {'real': canonical real results, 'req': request for the Lean driver}"""
+    import warnings
+    from astropy.coordinates.baseframe import NonRotationTransformationWarning
+    warnings.filterwarnings('ignore', category=NonRotationTransformationWarning)     # FK4 <-> anything: expected, not our subject
     from regions import PixCoord
     wd = case['wcs']
     h = case.get('history')
@@ -998,6 +1010,12 @@ def compute(case):
         ip.append([float(x_), float(y_)])
     real['indep'] = ip
     real['facts'] = frame_facts(d, fresh, back, wcs, wd)
+    if any(f['foreign'] for f in real['facts']):
+        # a component given in another frame comes back expressed in the WCS frame: it must have the same pixel image
+        try:
+            real['pix2'] = canon_pix(back.to_pixel(wcs))
+        except Exception as e:
+            real['pix2'] = {'exc': f'{type(e).__name__}: {e}'}
     real['conv'] = [[float(a), float(b)] for a, b in pix_points(pix)]
     req = {'op': 'c06.sky', 'region': model_sky(d, fresh), 'wcs': tables_json(p2s, s2p, loc),
            'pts': [[frac(F(x)), frac(F(y))] for x, y in zip(lo, la)]} if real['finite'] else None
@@ -1129,6 +1147,9 @@ class Check(PropertyCheck):
     level = 'proof'
     rule = ('real astropy.wcs.WCS: TAN/SIN/CAR x linear part encoded as PC+CDELT(-s,s) / full CD matrix / parity flip inside PC with positive CDELT / CROTA2+CDELT (the same transformation) x rotation -180..180 deg x pixel scale 0.01arcsec..0.1deg (log-uniform) x both parities x '
             'ICRS/FK5/FK4/Galactic x reference latitude |lat|<85 x positions within min(300 px, 25 deg) of CRPIX; every pixel class '
+            'sky regions given in a frame drawn INDEPENDENTLY of the WCS frame (icrs/fk5/fk4/galactic/barycentricmeanecliptic, 40% of them with a '
+            'non-default equinox/obstime where the frame has one; 40% in the WCS frame itself), per simple component; compounds of the nothing-containing '
+            'classes (point/line/text) with every include value at both levels, answers compared by value AND type for one scalar and an array of positions; '
             '(circle, ellipse, rectangle, polygon, regular polygon, 3 annuli, point, line, text) and compounds to depth 2, every sky class, '
             'sizes 0.015..240 px, any angle/unit, meta (include in {absent,True,False,1,0}, label/comment/text/name/tag) and visual '
             '(color/linewidth/fontsize/rotation), compound constructors called with explicit and with None dictionaries; '
@@ -1137,8 +1158,8 @@ class Check(PropertyCheck):
             'Non-trivial = geometry round trip of a region with a size/angle, or a membership comparison with both answers present.')
     assumptions = ['PARTIAL PROOF: the WCS (astropy/wcslib) is a parameter of the model; the round-trip theorems assume toPix and toSky are exactly '
                    'mutually inverse, a non-zero scale and a unit north vector; a real WCS inverts only to ~1e-9 pixel',
-                   'sky regions are expressed in the celestial frame of the WCS (pixel_to_world returns that frame; the helper measures north in the '
-                   "SkyCoord's own frame)",
+                   'the exact round-trip theorems assume toSky(toPix(q)) = q, which holds only for sky regions expressed in the frame of the WCS (pixel_to_world returns that frame; '
+                   "the helper measures north in the SkyCoord's own frame); other frames are covered by the differential run and the oracle only",
                    'the model is fed the real converted positions and the real helper results (tables); it is compared at 1e-9 relative on sizes and '
                    '(cos, sin) of angles, exactly on positions, classes, operators, text, meta, visual',
                    'membership is compared only for positions whose exact relative distance to the boundary of the pixel region is > max(1e-6, (3e-13 deg / pixel scale) / smallest dimension): sky coordinates are stored in degrees and carry a few ulp of 360 deg',
@@ -1147,11 +1168,13 @@ class Check(PropertyCheck):
     validated_only = ['that a real astropy WCS is invertible to within the tolerance and that the helper returns the same (scale, angle) at the '
                       'round-tripped centre: observed on every case of the run, not a theorem',
                       'astropy unit conversion (Angle/Quantity arithmetic in to_sky/to_pixel), SkyCoord frames, numpy cos/sin: parameters of the model',
-                      'sky regions whose SkyCoord frame differs from the WCS frame are not covered']
+                      'a sky region given in a frame other than the WCS frame comes back expressed in the WCS frame: it is compared through the image (same pixel image to 1e-6, positions '
+                      'mapped to the same pixels, angle = angle + north(own frame) - north(WCS frame)); its angular SIZES may differ by up to ~1e-3 where the projection is '
+                      'not conformal, because the scale is measured along the north of the frame the centre is given in (reported as an observation, not a theorem)']
 
     # -------------------------------------------------------------- generation
     def generate(self, rng, tier):
-        n_wcs = 130 if tier == 'quick' else 2000
+        n_wcs = 115 if tier == 'quick' else 2000
         cases = []
         for _ in range(n_wcs):
             wd = gen_wcs(rng)
@@ -1312,13 +1335,18 @@ class Check(PropertyCheck):
             leaf = start
             for step in pth.split('.')[1:]:
                 leaf = leaf[step]
-            tol = 1e-6 * max(region_size(leaf), scale_as0)
+            tol = 1e-6 * max(region_size(leaf) / scale_as0, 1.0)
             if f['n'][0] != f['n'][1]:
                 bad('vertex_count_changed', f'{pth}: {f["n"][0]} -> {f["n"][1]}')
             elif f['sep'] is not None and not f['sep'] <= tol:
-                bad('position_changed', f'{pth} (frame {leaf.get("frame")} on a {case["wcs"]["frame"]} WCS): a position moved by {f["sep"]!r} arcsec on the sky')
+                bad('position_changed', f'{pth} (frame {leaf.get("frame")} on a {case["wcs"]["frame"]} WCS): a position moved by {f["sep"]!r} pixels in the image')
             if f['dangle'] is not None and not abs(f['dangle']) <= 1e-6:
                 bad('angle_changed', f'{pth} (frame {leaf.get("frame")}): returned angle deviates by {f["dangle"]!r} rad from angle + north(own frame) - north(WCS frame)')
+        if foreign:
+            if 'exc' in real.get('pix2', {}):
+                bad('exception', 'to_pixel of the returned region: ' + real['pix2']['exc'])
+            else:
+                self._compare(real['pix'], real['pix2'], 'pix', case, bad, [], 'pixel image of the returned region vs of the original')
         self._compare_oneway(start, mid, bad, lost)
         self._typed_check(case, real, start, bad)
         # membership
@@ -1404,6 +1432,10 @@ class Check(PropertyCheck):
         if a['kind'] != b['kind'] or (a['cls'] != b['cls'] and not (a['cls'] == 'RegularPolygonPixelRegion' and b['cls'] == 'PolygonPixelRegion')):
             bad('class_changed', f'{path}: {a["cls"]} -> {b["cls"]}')
             return
+        is_foreign_leaf = unit == 'sky' and path in foreign
+        if is_foreign_leaf:
+            # the text rotation, like every angle, is counted from the longitude axis of the centre's own frame: compared through the pixel image
+            b = dict(b, visual=dict(b['visual'], rotation=a['visual']['rotation']))
         if not same_dicts(a, b, rot_floor=ROT_TOL_DEG):
             if a['kind'] == 'compound' and b['meta'] == {'include': 'absent', 'rest': []} and b['visual'] == {'rotation': None, 'rest': []}:
                 lost.append(path)
@@ -1417,10 +1449,9 @@ class Check(PropertyCheck):
             self._compare(a['b'], b['b'], unit, case, bad, lost, what, path + '.b', foreign)
             return
         if unit == 'sky' and path in foreign:
-            # expressed in another frame on return: positions / angle are compared on the sky by the caller (frame_facts)
-            for key in SIZE_KEYS.get(a['kind'], []):
-                if not rel_close(a[key], b[key], Fraction(1, 10 ** 6)):
-                    bad('size_changed', f'{path}.{key}: {float(a[key])!r} -> {float(b[key])!r}')
+            # expressed in another frame on return: positions, angle and sizes are compared through the image (frame_facts, pix2):
+            # the scale is measured along the north of the frame the centre is given in, and where the projection is not
+            # conformal (off-axis TAN/SIN, CAR) two norths give two scales -- the angular sizes then differ while the image is the same
             if a.get('text') != b.get('text'):
                 bad('text_changed', f'{path}: {a.get("text")!r} -> {b.get("text")!r}')
             return
